@@ -237,13 +237,14 @@ static void enc_release(struct enc *e)
 /* decode with the supplied fragment list; logs a Dec event (and its cleanup) */
 struct arr { int n; int idx[2 * MAXN]; int off[2 * MAXN]; };
 static const int *g_dmglog;      /* damage kinds to log instead of the applied mask (sweep_force) */
+static char **g_override;        /* per list entry: fragment bytes to supply instead of the pristine copy */
 static void do_decode(struct enc *e, struct arr *a, int force, uint64_t flen_arg, const unsigned char *dmgmask)
 {
     struct placed pl[2 * MAXN]; char *ptrs[2 * MAXN]; int i, rc, unch = 1; char *out = NULL; uint64_t olen = 0;
     long l0, l1, l2, ff = verif_foreign_free;
     uint32_t before[2 * MAXN];
     for (i = 0; i < a->n; i++) {
-        pl[i] = place_copy(e->frag[a->idx[i]], e->flen, a->off[i]);
+        pl[i] = place_copy((g_override && g_override[i]) ? g_override[i] : e->frag[a->idx[i]], e->flen, a->off[i]);
         if (dmgmask && dmgmask[i]) {
             /* damage: flip a payload bit (1) or a header metadata bit (2) */
             if (dmgmask[i] == 1 && e->flen > 80) pl[i].ptr[80 + (a->idx[i] % (e->flen - 80))] ^= 0x10;
